@@ -3,8 +3,8 @@
    implementation model: Model/AggImpl.v (hand-written from src/sql/state.rs, executor.rs,
    builder.rs, predicate.rs; tied to the code by the correspondence run); classes: Model/AggClass.v. *)
 From Coq Require Import ZArith List Bool.
-From TV Require Import Model.SqlSpecAgg Model.AggImpl Model.AggClass
-  Proof.AggFold Proof.AggFoldSpec Proof.AggRefute.
+From TV Require Import Model.SqlSpecAgg Model.AggImpl Model.AggClass Model.AggJoin
+  Proof.AggFold Proof.AggFoldSpec Proof.AggRefute Proof.AggKeys Proof.AggGroups Proof.AggGroupsMain.
 Import ListNotations.
 Open Scope Z_scope.
 
@@ -24,6 +24,53 @@ Check agg_fold_spec :
     agg_vals f vs = AVal v ->
     exists s, fold_upd (kind_of_fn f) st0 (map Some vs) = SOk s /\ fin (kind_of_fn f) s = v.
 Print Assumptions agg_fold_spec.
+
+(* GROUP BY over plain columns (each key column of one kind): whenever HashAggregate gets through,
+   its table IS the reference grouping -- one entry per distinct key in order of first occurrence
+   (NULL keys form one group, 0.0 and -0.0 one group), the group values shown are the key, and each
+   aggregate state is the fold of update over exactly the rows of that group (entry_ok) *)
+Theorem groups_partition :
+  forall keys fs rows ks tbl,
+    all_plain keys = true ->
+    map_opt (fun r => map_opt (fun e => eval e r) keys) rows = Some ks ->
+    key_cols_ok (length keys) ks = true ->
+    hash_aggregate keys fs rows [] = SOk tbl ->
+    Forall2 (entry_ok fs) tbl (groups_of (combine ks rows)).
+Proof. exact Proof.AggGroupsMain.groups_partition. Qed.
+Check groups_partition :
+  forall keys fs rows ks tbl,
+    all_plain keys = true ->
+    map_opt (fun r => map_opt (fun e => eval e r) keys) rows = Some ks ->
+    key_cols_ok (length keys) ks = true ->
+    hash_aggregate keys fs rows [] = SOk tbl ->
+    Forall2 (entry_ok fs) tbl (groups_of (combine ks rows)).
+Print Assumptions groups_partition.
+
+(* the reference groups: a row lies in a group exactly if its key is the same as the group's
+   (both NULL, or equal by value), and NULL is the same as NULL only *)
+Theorem reference_groups :
+  (forall (krs : list (list value * row)) g r, In g (groups_of krs) ->
+     (In r (snd g) <-> exists k', In (k', r) krs /\ key_same (fst g) k' = true)) /\
+  (forall v, key_same1 VNull v = is_null v).
+Proof. exact (conj group_rows null_keys_one_group). Qed.
+Check reference_groups :
+  (forall (krs : list (list value * row)) g r, In g (groups_of krs) ->
+     (In r (snd g) <-> exists k', In (k', r) krs /\ key_same (fst g) k' = true)) /\
+  (forall v, key_same1 VNull v = is_null v).
+Print Assumptions reference_groups.
+
+(* empty input: without GROUP BY one row of initial states (COUNT 0; SUM 0 -- class 2 -- and NULL for
+   AVG / MIN / MAX), with GROUP BY no row *)
+Theorem empty_input :
+  (forall fs, agg_rows [] fs [] = SOk [finalize_all fs (map (fun _ => st0) fs)]) /\
+  (forall k keys fs, agg_rows (k :: keys) fs [] = SOk []) /\
+  (forall f, finalize f st0 = match kind_of f with KCount | KSum => VInt 0 | _ => VNull end).
+Proof. exact (conj agg_rows_empty_nokeys (conj agg_rows_empty_keys finalize_initial)). Qed.
+Check empty_input :
+  (forall fs, agg_rows [] fs [] = SOk [finalize_all fs (map (fun _ => st0) fs)]) /\
+  (forall k keys fs, agg_rows (k :: keys) fs [] = SOk []) /\
+  (forall f, finalize f st0 = match kind_of f with KCount | KSum => VInt 0 | _ => VNull end).
+Print Assumptions empty_input.
 
 (* the recorded classes are real: in each the faithful model answers a concrete query wrongly *)
 Theorem count_null_refuted :
@@ -79,6 +126,19 @@ Check having_agg_refuted :
   q_class q_hav t_hav = 7 /\ wrong_rows q_hav t_hav /\ model_query q_hav t_hav = MRows [].
 Print Assumptions having_agg_refuted.
 
+Theorem join_agg_refuted :
+  (spec_join_query jl jr 1 1 q_join = SRows [[VInt 1; VInt 2]] /\
+   model_join_query jl jr 1 1 q_join = MRows [[VInt 1; VInt 1]; [VInt 2; VInt 1]]) /\
+  (spec_join_query jl [] 1 1 (mkQ None [] [mkAgg FCountStar (ECol 0)] [0%nat] None) = SRows [[VInt 0]] /\
+   model_join_query jl [] 1 1 (mkQ None [] [mkAgg FCountStar (ECol 0)] [0%nat] None) = MRows []).
+Proof. exact (conj join_agg_refuted_l join_agg_empty_refuted_l). Qed.
+Check join_agg_refuted :
+  (spec_join_query jl jr 1 1 q_join = SRows [[VInt 1; VInt 2]] /\
+   model_join_query jl jr 1 1 q_join = MRows [[VInt 1; VInt 1]; [VInt 2; VInt 1]]) /\
+  (spec_join_query jl [] 1 1 (mkQ None [] [mkAgg FCountStar (ECol 0)] [0%nat] None) = SRows [[VInt 0]] /\
+   model_join_query jl [] 1 1 (mkQ None [] [mkAgg FCountStar (ECol 0)] [0%nat] None) = MRows []).
+Print Assumptions join_agg_refuted.
+
 (* non-vacuity: the hypotheses of agg_fold_spec are met by NULL-rich inputs of every function *)
 Example agg_fold_nonvacuous :
   let vs := [VInt 3; VNull; VInt (-5); VInt 3] in
@@ -91,3 +151,16 @@ Example agg_fold_nonvacuous :
   (vals_class FCount [VInt 1; VInt 2] = 0 /\ agg_vals FCount [VInt 1; VInt 2] = AVal (VInt 2)) /\
   (vals_class FCountStar [VNull; VNull] = 0 /\ agg_vals FCountStar [VNull; VNull] = AVal (VInt 2)).
 Proof. cbv zeta. repeat split; try (vm_compute; reflexivity). eexists; vm_compute; reflexivity. Qed.
+
+(* non-vacuity of groups_partition: two keys with NULLs, three groups, the NULL rows together *)
+Example groups_partition_nonvacuous :
+  let keys := [ECol 1%nat] in
+  let rows := [[VInt 1; VNull]; [VInt 2; VInt 7]; [VInt 3; VNull]; [VInt 4; VInt 0]; [VInt 5; VInt 7]] in
+  all_plain keys = true /\
+  exists ks tbl,
+    map_opt (fun r => map_opt (fun e => eval e r) keys) rows = Some ks /\
+    key_cols_ok (length keys) ks = true /\
+    hash_aggregate keys [MCount; MSum 0%nat] rows [] = SOk tbl /\
+    map (fun e : gentry => snd (fst e) ++ finalize_all [MCount; MSum 0%nat] (snd e)) tbl =
+      [[VNull; VInt 2; VInt 4]; [VInt 7; VInt 2; VInt 7]; [VInt 0; VInt 1; VInt 4]].
+Proof. cbv zeta. split; [reflexivity|]. eexists; eexists. repeat split; vm_compute; reflexivity. Qed.
